@@ -51,7 +51,7 @@ def types_header(facts):
 # driver generation
 # ---------------------------------------------------------------------------------------------
 
-IN_VALUES = [11, 22, 33, 44]      # distinct values per argument position
+IN_VALUES = [11, 22, 33, 44, 55, 66, 77, 88, 99, 110, 121, 132]      # distinct values per argument position
 
 
 def reply_expr(ev):
@@ -569,6 +569,51 @@ def gen_c04(facts, cfg, mcport, events):
         w(f'        bool to_holder_ = H.log.size() == 1 && H.log[0] == "{mcport.tag(oev)}@AB" && {exp};')
         w(f'        verif::emit("C04", "out-event-to-holder", "{oev.name}", to_holder_, "hits=" + H.joined());')
         w(f'        verif::emit("C01", "route", "{mcport.tag(oev)}@holder", to_holder_, "after a granted claim by AB: hits=" + H.joined()); }}')
+    w('    }')
+    # (5) size: many clients with long identifiers that share a long prefix and end in a number ("...unit10" sorts
+    #     before "...unit2"); ALL are registered first, the returned handles are kept and only then wired and used
+    oev0 = outs[0]
+    w('    for (int N : {5, 8, 9, 12, 17, 33}) {')
+    w('      Fix fx; Shell& sh_ = *fx.sh; Comp& comp_ = *fx.comp; dzn::pump& pump_ = *fx.pump; bind_all(sh_, comp_, pump_, -1, 0);')
+    w('      std::vector<std::string> ids; for (int i = 0; i < N; ++i) ids.push_back("plant.hall2.line7.station12.operatorPanel.unit" + std::to_string(i));')
+    w(f'      using Handle = decltype(sh_.ProvidesMultiClient{p.cap}(std::string()));')
+    w(f'      std::vector<Handle> handles; for (auto& id_ : ids) handles.push_back(sh_.ProvidesMultiClient{p.cap}(id_));')
+    w('      std::vector<int> got(N, 0); std::string problem;')
+    w('      for (int i = 0; i < N; ++i) {')
+    for oev in outs:
+        w(f'        handles[i].port.out.{oev.name} = [&got, i]{handler_sig(oev)} {{ ' + ('got[i]++; ' if oev.name == oev0.name else '') + '};')
+    w('      }')
+    w('      std::string what; bool fc_throws = throws([&]{ sh_.FinalConstruct(&parent); }, what);')
+    w('      if (fc_throws) problem += "FinalConstruct throws although every client is wired: " + what + "; ";')
+    w(f'      comp_.{p.name}.in.{claim.name} = [&]{handler_sig(claim)} {{ ' +
+      ' '.join(f'{f[0]} = {value_type(f[1])}({1000 + IN_VALUES[i]});' for i, f in enumerate(claim.formals) if f[2] != 'in') +
+      ' return FIELDS[GRANT]; };')
+    w('      if (!fc_throws) for (int i : {0, N - 1, N / 2, 1, N - 2, 2, 10 % N}) {')
+    w('        std::vector<int> before = got;')
+    w('        { ' + args_decl(claim) + f' auto r_ = handles[i].port.in.{claim.name}({args_call(claim)}); if (!(r_ == FIELDS[GRANT])) problem += "claim reply lost; "; }}')
+    w('        { ' + args_decl(oev0) + f' comp_.{p.name}.out.{oev0.name}({args_call(oev0)}); }}')
+    w('        for (int j = 0; j < N; ++j) if (got[j] != before[j] + (j == i ? 1 : 0)) { problem += "after a granted claim by client " + std::to_string(i) + " the out-event count of client " + std::to_string(j) + " changed by " + std::to_string(got[j] - before[j]) + "; "; break; }')
+    w('        { ' + args_decl(release) + f' handles[i].port.in.{release.name}({args_call(release)}); }}')
+    w('        before = got; { ' + args_decl(oev0) + f' comp_.{p.name}.out.{oev0.name}({args_call(oev0)}); }}')
+    w('        if (got != before) problem += "out-event delivered after the release of client " + std::to_string(i) + "; ";')
+    w('      }')
+    w(f'      {{ const Shell& csh_ = sh_; auto known_ = csh_.Get{p.cap}ClientIdentifiers(); std::set<std::string> a_(known_.begin(), known_.end()), b_(ids.begin(), ids.end()); if (a_ != b_ || (int)known_.size() != N) problem += "client identifiers reported: " + std::to_string(known_.size()) + "; "; }}')
+    w(f'      {{ std::string w2; if (!fc_throws && !throws([&]{{ (void)sh_.ProvidesMultiClient{p.cap}(ids[0] + "x"); }}, w2)) problem += "late registration accepted; "; }}')
+    w('      verif::emit("C04", "many-clients", "clients=" + std::to_string(N), problem.empty(), problem);')
+    w(f'      verif::emit("C01", "route", "{mcport.tag(oev0)}@many-clients=" + std::to_string(N), problem.empty(), problem);')
+    w('      verif::emit("C10", "fully-bound", "many-clients=" + std::to_string(N), !fc_throws, what);')
+    w('      // ... and with ONE out-event of ONE of the many clients left unbound final construction must fail')
+    w('      for (int miss : {N - 1, 1}) {')
+    w('        Fix fy; Shell& sy_ = *fy.sh; bind_all(sy_, *fy.comp, *fy.pump, -1, 0);')
+    w(f'        std::vector<Handle> hs; for (auto& id_ : ids) hs.push_back(sy_.ProvidesMultiClient{p.cap}(id_));')
+    w('        for (int i = 0; i < N; ++i) {')
+    for oev in outs:
+        cond = 'if (i != miss) ' if oev.name == oev0.name else ''
+        w(f'          {cond}hs[i].port.out.{oev.name} = []{handler_sig(oev)} {{ }};')
+    w('        }')
+    w('        std::string w3; bool thrown = throws([&]{ sy_.FinalConstruct(&parent); }, w3);')
+    w('        verif::emit("C10", "unbound-detected", "many-clients=" + std::to_string(N) + "/client " + std::to_string(miss), thrown, w3);')
+    w('      }')
     w('    }')
     w('  }')
     return out
